@@ -160,11 +160,12 @@ static int cl_upload(int srv, uint16_t idx, uint8_t sub, uint8_t *out, uint32_t 
 /* block upload.  Deviations: at block number dev_blk[i] (0-based) the client acknowledges only dev_ack[i] segments
  * (-1: all) and requests dev_bs[i] as next block size (0: unchanged). */
 static int cl_blk_blocks;                    /* blocks seen in the last run */
+static int cl_refuse_blk = -1, cl_refuse_seg;   /* block upload: the server's CAN driver refuses (returns 'busy' for) the cl_refuse_seg-th frame of block cl_refuse_blk */
 static int cl_blk_sent[64];                  /* segments the server sent in block i of the last run */
 static int cl_blk_ul(int srv, uint16_t idx, uint8_t sub, uint8_t blksize, uint8_t *out, uint32_t cap, uint32_t *len, uint32_t *announced,
                      const int *dev_blk, const int *dev_ack, const int *dev_bs, int ndev)
 {
-    uint8_t f[8]; uint32_t got = 0; int blk = 0; uint8_t bs = blksize; int finished = 0; uint32_t lastlen = 7;
+    uint8_t f[8]; uint32_t got = 0; int blk = 0; uint8_t bs = blksize; int finished = 0; uint32_t lastlen = 7; int refused_here;
     cl_blk_blocks = 0;
     cl_req(f, 0xA0, idx, sub); f[4] = blksize; f[5] = 0;
     cl_send(srv, f);
@@ -172,13 +173,20 @@ static int cl_blk_ul(int srv, uint16_t idx, uint8_t sub, uint8_t blksize, uint8_
     if (cl_nresp != 1 || (cl_resp[0].d[0] & 0xFB) != 0xC2) CL_ERR("initiate block upload: unexpected response");
     *announced = w_get32(cl_resp[0].d + 4);
     cl_req(f, 0xA3, 0, 0);
+    if (cl_refuse_blk == 0) DRV.send_refuse_nth = cl_refuse_seg;
     cl_send(srv, f);
     for (;;) {
         /* cl_resp holds the segments of the block */
+        refused_here = (cl_refuse_blk == blk && DRV.send_refuse_nth == 0 && cl_refuse_seg > 0);
+        DRV.send_refuse_nth = 0;
         if (cl_check_abort()) return CL_ABORT;
-        if (cl_nresp < 1 || cl_nresp > bs) CL_ERR("block %d: %d segments for block size %d", blk, cl_nresp, bs);
+        if ((cl_nresp < 1 && !refused_here) || cl_nresp > bs) CL_ERR("block %d: %d segments for block size %d", blk, cl_nresp, bs);
         int ackn = cl_nresp, newbs = bs;
-        for (int i = 0; i < ndev; i++) if (dev_blk[i] == blk) { if (dev_ack[i] >= 0 && dev_ack[i] <= cl_nresp) ackn = dev_ack[i]; if (dev_bs[i] > 0) newbs = dev_bs[i]; }
+        if (refused_here) {   /* the driver of the server refused one segment of this block: the client acknowledges the in-order prefix it received */
+            int inorder = 0; while (inorder < cl_nresp && (cl_resp[inorder].d[0] & 0x7F) == inorder + 1) inorder++;
+            ackn = inorder;
+        }
+        for (int i = 0; i < ndev; i++) if (dev_blk[i] == blk) { if (dev_ack[i] >= 0 && dev_ack[i] <= ackn) ackn = dev_ack[i]; if (dev_bs[i] > 0) newbs = dev_bs[i]; }
         if (blk < 64) cl_blk_sent[blk] = cl_nresp;
         for (int k = 0; k < ackn; k++) {
             const uint8_t *r = cl_resp[k].d;
@@ -194,6 +202,7 @@ static int cl_blk_ul(int srv, uint16_t idx, uint8_t sub, uint8_t blksize, uint8_
         blk++; cl_blk_blocks = blk;
         if ((uint32_t)blk > 5000u + cap) CL_ERR("block upload does not terminate");
         memset(f, 0, 8); f[0] = 0xA2; f[1] = (uint8_t)ackn; f[2] = (uint8_t)newbs; bs = (uint8_t)newbs;
+        if (cl_refuse_blk == blk && !finished) DRV.send_refuse_nth = cl_refuse_seg;
         cl_send(srv, f);
         if (finished) break;
         if (ackn == 0 && cl_nresp == 0) CL_ERR("no data after acknowledge");
